@@ -44,3 +44,29 @@ Theorem C01_completion_reports_this_exchange : forall now c ev,
   counters (c_keys c') = counters (a_keys (the_ake c)) /\ macHistory (c_keys c') = macHistory (a_keys (the_ake c)).
 Proof. exact akeHasFinished_spec. Qed.
 Print Assumptions C01_completion_reports_this_exchange.
+
+(* ---- over every history ----
+   Whatever is handed to a conversation, in whatever order and however often (modified, truncated, injected, replayed
+   from other sessions; Send, End, SMP and extra-key calls in between): if it reports itself encrypted, then among the
+   messages it RECEIVED there is a signature made by the owner of exactly the peer key it reports ([es_signer = es_pub]
+   = the reported key), computed over M = (MAC key of the session secret, the peer's D-H value gy, our D-H value x,
+   that key, key id), where the reported session id is the one of the secret of exactly x and gy, and gy is in range.
+   (Symbolic model: that a signature term with signer k can only come from the holder of k's private key is the
+   idealisation of DSA; [mk_shared x gy] is the D-H secret of the two values.) *)
+From OTR Require Import Proto.Lifecycle Proto.AkeAuth.
+Theorem C01_encrypted_implies_peer_signed_this_exchange : forall who pol key h,
+  let '(c', _) := run_calls (conv_init who pol key) h in
+  c_msgState c' = c_encrypted ->
+  exists es x gy w, In es (sigs_of_history h) /\ es_signer es = es_pub es /\ c_theirKey c' = Some (es_pub es) /\
+    c_ssid c' = Some (mk_shared x gy) /\ isGroupElement gy = true /\
+    es_over es = {| mb_key := {| ak_sh := mk_shared x gy; ak_which := w |}; mb_gfirst := gy; mb_gsecond := x;
+                    mb_pub := es_pub es; mb_keyid := es_keyid es |}.
+Proof. exact encrypted_implies_signed. Qed.
+Print Assumptions C01_encrypted_implies_peer_signed_this_exchange.
+
+(* the step behind it: every call keeps the exchange context consistent and either leaves (message state, reported
+   key, session id) alone, or ends up not encrypted, or ends up authenticated by a signature it was handed *)
+Theorem C01_every_call_keeps_authentication : forall now c op S, AInv S c ->
+  let '(c', _) := step now c op in AInv (sigs_of_call op ++ S) c'.
+Proof. exact step_AInv. Qed.
+Print Assumptions C01_every_call_keeps_authentication.
